@@ -123,9 +123,9 @@ func wshsParse(f []string) wshsPlan {
 		case "mode":
 			p.mode = v
 		case "resp":
-			p.resp = unhx(v)
+			p.resp = cdUnhx(v)
 		case "trail":
-			p.trail = unhx(v)
+			p.trail = cdUnhx(v)
 		case "segs":
 			if v != "-" {
 				for _, a := range strings.Split(v, ",") {
@@ -349,7 +349,7 @@ func (e *wshsEnv) handshake(p wshsPlan) {
 			if f.IsFIN() {
 				fin = 1
 			}
-			frame = fmt.Sprintf("ok %d %d %s", fin, int(f.Opcode()), hx(f.Payload()))
+			frame = fmt.Sprintf("ok %d %d %s", fin, int(f.Opcode()), cdHx(f.Payload()))
 		}
 	} else if err == nil {
 		_ = e.s.Flush()
@@ -530,7 +530,7 @@ func wshsLine(r *rng, mode string, head []byte, status int, upg, acc, parse stri
 		ca = fmt.Sprint(closeAt)
 	}
 	return fmt.Sprintf("hs mode=%s status=%d upg=%s acc=%s parse=%s resp=%s trail=%s segs=%s closeat=%s extra=%s",
-		mode, status, strings.ReplaceAll(upg, " ", "_"), acc, parse, hx(head), hx(trail), sg, ca, extra)
+		mode, status, strings.ReplaceAll(upg, " ", "_"), acc, parse, cdHx(head), cdHx(trail), sg, ca, extra)
 }
 
 func wshsGen(r *rng, maxops int, w *bufio.Writer) {
